@@ -22,5 +22,10 @@ POOL = {
     "open_doc_in_fr": '# language: fr\nFonctionnalité: n\n  Scénario: s\n    Soit x\n        ```\n        dedans\n',
     "stop_mid_table": "Feature: o\n  Scenario Outline: s\n    Given <a>\n    Examples:\n      | a |\n      | 1 | 2 |\n  junk\n",
     "feature_tags_only": "@only @tags\n",
+    # parses that are abandoned while look-ahead tokens are still buffered
+    "ragged_then_tags": "Feature: p\n  Scenario: s\n    Given x\n    | a | b |\n    | c |\n  @t\n  # c\n  Scenario: t\n    Given y\n",
+    "cap_inside_lookahead": "Feature: q\n  Scenario: s\n    Given x\n    | a |\n" + "".join("junk %d\n" % i for i in range(10)) + "  @ok\n\n  @bad tag\n  # c\n  Scenario: t\n",
+    "cap_at_ragged_then_tags": "Feature: r\n  Scenario: s\n    Given x\n    | a |\n" + "".join("junk %d\n" % i for i in range(10)) + "    Given z\n    | a | b |\n    | c |\n  @t\n  Scenario: u\n",
+    "hdr_en_redundant": "# language: en\nFeature: s\n  Scenario: s\n    Given a\n    And b\n    * c\n",
 }
 NAMES = list(POOL)
